@@ -23,14 +23,39 @@ func fieldOf(v ssa.Value, name string) (ssa.Value, bool) {
 		case *ssa.Field:
 			st := x.X.Type().Underlying().(*types.Struct)
 			if st.Field(x.Field).Name() == name {
-				return x.X, true
+				// a promoted field: the value it is a field of is the struct that embeds its struct
+				root := x.X
+				for d := 0; d < 4; d++ {
+					in, ok := root.(*ssa.Field)
+					if !ok {
+						break
+					}
+					ist, ok := in.X.Type().Underlying().(*types.Struct)
+					if !ok || !ist.Field(in.Field).Embedded() {
+						break
+					}
+					root = in.X
+				}
+				return root, true
 			}
 		case *ssa.UnOp:
 			if x.Op == token.MUL {
 				if fa, ok := x.X.(*ssa.FieldAddr); ok {
 					st := fa.X.Type().Underlying().(*types.Pointer).Elem().Underlying().(*types.Struct)
 					if st.Field(fa.Field).Name() == name {
-						return fa.X, true
+						root := fa.X
+						for d := 0; d < 4; d++ { // a promoted field: climb out of the embedded structs
+							in, ok := root.(*ssa.FieldAddr)
+							if !ok {
+								break
+							}
+							ist, ok := derefType(in.X.Type()).Underlying().(*types.Struct)
+							if !ok || !ist.Field(in.Field).Embedded() {
+								break
+							}
+							root = in.X
+						}
+						return root, true
 					}
 				}
 			}
